@@ -68,3 +68,23 @@ Proof. intro H. rewrite splitlines_crlf, splitlines_cr by exact H. split; reflex
 
 Example loc_demo : count_locs (splitlines [35; 32; 99; 13; 10; 120; 61; 49; 13; 13; 121; 10]) = 2%Z.
 Proof. vm_compute. reflexivity. Qed.
+
+(* C10/C12: inserting blank or comment-only lines between the lines of a file leaves the loc metric alone (the first line
+   keeps its place, so a byte order mark stays where strip_bom looks for it) *)
+Definition strip_first (l : list N) : list N :=
+  match l with 239 :: 187 :: 191 :: rest => rest | _ => l end.
+Lemma strip_bom_cons first t : strip_bom (first :: t) = strip_first first :: t.
+Proof.
+  unfold strip_bom, strip_first.
+  repeat match goal with |- context [match ?x with _ => _ end] => destruct x end; reflexivity.
+Qed.
+
+Lemma count_locs_insert first rest1 rest2 ins :
+  Forall (fun l => is_loc l = false) ins ->
+  count_locs (first :: rest1 ++ ins ++ rest2) = count_locs (first :: rest1 ++ rest2).
+Proof.
+  intro H. unfold count_locs. rewrite !strip_bom_cons. cbn [filter].
+  assert (G : filter is_loc ins = []).
+  { induction H as [|x t Hx Ht IH]; [reflexivity|]. cbn [filter]. rewrite Hx. exact IH. }
+  destruct (is_loc (strip_first first)); cbn [List.length]; rewrite !filter_app, G; reflexivity.
+Qed.
